@@ -1,21 +1,22 @@
 //! scratch entry point for investigating violations (not part of any check)
 use crate::common::*;
 use crate::gen::cond::*;
-use crate::gen::voice::GenCfg;
 pub fn run(_args: &[String]) -> i32 {
-    let corpus = crate::gen::labels::corpus();
-    let cfg = GenCfg { gv: true, nstate: 3, ..GenCfg::default() };
-    let e0 = engine_from_bytes(&cfg.bytes()).unwrap();
-    let u = vec![corpus[41].clone()];
-    let t0 = trajectories(&e0, &u).unwrap();
-    let mut e = e0.clone();
-    e.condition.set_additional_half_tone(-24.0);
-    let t = trajectories(&e, &u).unwrap();
-    println!("lf0 0: {:?}", t0.1);
-    println!("lf0 h: {:?}", t.1);
-    let labs: Vec<jlabel::Label> = u.iter().map(|l| crate::gen::labels::parse(l)).collect();
-    let models = jbonsai::model::Models::new(&labs, &e0.voices, e0.condition.get_interporation_weight());
-    println!("{:?}", models.model_stream(1).stream);
-    println!("{:?}", models.model_stream(1).gv);
+    let utts = crate::props::c03::utterances();
+    for kind in [2usize, 3] {
+        let base = crate::props::c03::engine_kind(kind);
+        for (ui, u) in utts.iter().enumerate() {
+            let w0 = synth(&base, u).unwrap();
+            let t0 = trajectories(&base, u).unwrap();
+            let voiced = t0.1.iter().filter(|f| f[0] != -1e10).count();
+            print!("kind {} utt {} frames {} voiced {} :", kind, ui, t0.1.len(), voiced);
+            for s in 0..5 {
+                let e = crate::props::c03::engine_for_mask_pub(&base, 1 << s);
+                let w = synth(&e, u).unwrap();
+                print!(" setter{}:{}", s, if bits_eq(&w, &w0) { "same" } else { "DIFF" });
+            }
+            println!();
+        }
+    }
     0
 }
